@@ -290,8 +290,8 @@ Qed.
 (* ------------------------------------------------------------------ value ---- *)
 
 Lemma value_of_cons assets op x t :
-  value_of assets op (x :: t) =
-  (if p_op x =? op then match pool_usd assets x with Some v => v | None => 0 end else 0) + value_of assets op t.
+  value_of_pool assets op (x :: t) =
+  (if p_op x =? op then match pool_usd assets x with Some v => v | None => 0 end else 0) + value_of_pool assets op t.
 Proof. reflexivity. Qed.
 
 Lemma priced_cons assets op x t :
@@ -300,7 +300,7 @@ Lemma priced_cons assets op x t :
 Proof. reflexivity. Qed.
 
 Lemma op_value_spec assets op ps v : op_value assets op ps = Ok v ->
-  priced assets op ps = true /\ value_of assets op ps = v.
+  priced assets op ps = true /\ value_of_pool assets op ps = v.
 Proof.
   revert v. induction ps as [|x t IH]; intros v H.
   - simpl in H. inversion H. split; reflexivity.
@@ -325,9 +325,9 @@ Qed.
 Lemma value_of_nonneg assets op ps :
   forallb (fun i => (0 <? a_price i) && (0 <=? a_pdec i) && (0 <=? a_dec i)) assets = true ->
   forallb (fun x => (0 <=? p_total x) && (0 <=? p_pending x) && (0 <=? p_tshare x) && (0 <=? p_oshare x)) ps = true ->
-  0 <= value_of assets op ps.
+  0 <= value_of_pool assets op ps.
 Proof.
-  intros Ha Hp. induction ps as [|x t IH]; [unfold value_of; simpl; lia|]. rewrite value_of_cons.
+  intros Ha Hp. induction ps as [|x t IH]; [unfold value_of_pool; simpl; lia|]. rewrite value_of_cons.
   simpl in Hp. apply andb_prop in Hp. destruct Hp as [Hx Ht]. specialize (IH Ht).
   destruct (p_op x =? op); [|lia].
   unfold pool_usd. destruct (find_asset assets (p_asset x)) as [i|] eqn:Ef; [|lia].
@@ -402,7 +402,7 @@ Proof.
 Qed.
 
 Definition the_p (s : st) (e : env) (q : sprm) (f : Z) : Z :=
-  proportion (q_power q) f (value_of (v_assets e) (q_op q) (s_pools s)).
+  proportion (q_power q) f (value_of_pool (v_assets e) (q_op q) (s_pools s)).
 
 Lemma slash_assets_sinfos_m s e q f :
   match slash_assets s e q f with Ok (s1, _) => s_sinfos s1 = s_sinfos s | _ => True end.
@@ -447,7 +447,7 @@ Qed.
 
 (* an operator whose staking + unbonding value is not positive: error, nothing changes *)
 Lemma slash_zero_value s e q : priced (v_assets e) (q_op q) (s_pools s) = true ->
-  value_of (v_assets e) (q_op q) (s_pools s) <= 0 ->
+  value_of_pool (v_assets e) (q_op q) (s_pools s) <= 0 ->
   fst (slash s e q) = s /\ snd (slash s e q) = RErr.
 Proof.
   intros Hpr Hv. unfold slash. destruct (negb (check_param (v_height e) q)); [split; reflexivity|].
@@ -465,7 +465,7 @@ Lemma slash_assets_spec s e q f :
   match slash_assets s e q f with
   | Ok (s1, ex) =>
       priced (v_assets e) (q_op q) (s_pools s) = true /\
-      0 < value_of (v_assets e) (q_op q) (s_pools s) /\
+      0 < value_of_pool (v_assets e) (q_op q) (s_pools s) /\
       s_pools s1 = map (pool_step (the_p s e q f) (q_op q) (s_slists s)) (s_pools s) /\
       forall2b (rec_ok (the_p s e q f) (q_op q) (q_event q)) (s_recs s) (s_recs s1) = true /\
       forall2b (fun r r' => (u_actual r' <=? u_actual r) && (0 <=? u_actual r')) (s_recs s) (s_recs s1) = true /\
@@ -489,7 +489,7 @@ Proof.
   assert (Hpe : Z.min P (dec_quo (q_power q * f) total) = the_p s e q f).
   { unfold the_p, proportion. rewrite Hval. reflexivity. }
   rewrite Hpe. clear Hpe.
-  assert (Hvpos : 0 < value_of (v_assets e) (q_op q) (s_pools s)) by lia.
+  assert (Hvpos : 0 < value_of_pool (v_assets e) (q_op q) (s_pools s)) by lia.
   assert (Hp0 : 0 <= the_p s e q f) by (apply proportion_nonneg; assumption).
   generalize dependent (the_p s e q f). intros p Hp0.
   pose proof (walk_pools_fst p (q_op q) (s_slists s) (s_pools s)) as Wp1.
@@ -507,12 +507,21 @@ Proof.
   - apply Z.leb_gt in Elt. lia.
 Qed.
 
+(* when the pool figures agree with the live records, the statement's value is the value the code computes *)
+Lemma value_of_agree assets op s : pending_agrees s = true ->
+  value_of assets op (s_pools s) (s_recs s) = value_of_pool assets op (s_pools s).
+Proof.
+  intros H. unfold value_of, value_of_pool, pending_agrees in *. f_equal. apply map_ext_in. intros x Hx.
+  rewrite forallb_forall in H. specialize (H x Hx). apply Z.eqb_eq in H.
+  unfold pool_usd_live, pool_usd. rewrite H. reflexivity.
+Qed.
+
 Lemma slash_executed s e q :
-  st_nonneg s = true -> env_sane e = true ->
+  st_nonneg s = true -> env_sane e = true -> pending_agrees s = true ->
   snd (slash s e q) = ROk ->
   exists f, q_factor q = Some f /\ in_domain e q = true /\ executed_ok s e q f (fst (slash s e q)) = true.
 Proof.
-  intros Hnn Hsane. unfold slash.
+  intros Hnn Hsane Hpa. unfold slash.
   destruct (check_param (v_height e) q) eqn:Ecp; simpl; [|discriminate].
   unfold check_param in Ecp.
   destruct (q_factor q) as [f|] eqn:Ef; [|discriminate].
@@ -536,7 +545,7 @@ Proof.
   intros _. exists f. split; [reflexivity|]. split.
   { unfold in_domain. rewrite Ef. repeat (apply andb_true_intro; split); apply Z.leb_le; lia. }
   cbn [fst].
-  unfold executed_ok. cbn [s_pools s_recs s_delegs s_slists s_sinfos].
+  unfold executed_ok. rewrite (value_of_agree (v_assets e) (q_op q) s Hpa). cbn [s_pools s_recs s_delegs s_slists s_sinfos].
   fold (the_p s e q f).
   assert (Hp0 : 0 <= the_p s e q f) by (apply proportion_nonneg; assumption).
   assert (HpP : the_p s e q f <= P) by apply proportion_le_one.
@@ -554,15 +563,15 @@ Qed.
 (* ------------------------------------------------------------------ every entry point ---- *)
 
 Lemma step_ok_slash_direct s e q :
-  st_nonneg s = true -> env_sane e = true ->
+  st_nonneg s = true -> env_sane e = true -> pending_agrees s = true ->
   step_ok s e (CSlash q) (fst (slash s e q)) (snd (slash s e q)) = true.
 Proof.
-  intros Hnn Hs. unfold step_ok. simpl.
+  intros Hnn Hs Hpa. unfold step_ok. simpl.
   destruct (has_sinfo (s_sinfos s) (q_op q) (q_avs q) (q_id q)) eqn:Ed.
   - destruct (slash_dup s e q Ed) as [H1 H2]. rewrite H1, st_eqb_refl. simpl.
     destruct (snd (slash s e q)); try reflexivity. contradiction.
   - destruct (snd (slash s e q)) eqn:Er.
-    + destruct (slash_executed s e q Hnn Hs Er) as [f [Hf [Hd He]]]. rewrite Hf, Hd, He. reflexivity.
+    + destruct (slash_executed s e q Hnn Hs Hpa Er) as [f [Hf [Hd He]]]. rewrite Hf, Hd, He. reflexivity.
     + rewrite slash_not_ok by (rewrite Er; discriminate). apply st_eqb_refl.
     + exfalso. exact (slash_never_panics s e q Er).
     + exfalso. unfold slash in Er. destruct (negb (check_param (v_height e) q)); [discriminate|].
@@ -571,18 +580,18 @@ Proof.
 Qed.
 
 Lemma step_ok_reason s e c q :
-  st_nonneg s = true -> env_sane e = true ->
+  st_nonneg s = true -> env_sane e = true -> pending_agrees s = true ->
   (match c with CSlash _ => False | _ => True end) ->
   call_prm e c = Some q -> (exists f, q_factor q = Some f) ->
   let r := snd (slash s e q) in
   step_ok s e c (fst (slash s e q)) (match r with RPanic => RPanic | _ => RZero end) = true.
 Proof.
-  intros Hnn Hs Hc Hprm [f Hf] r. unfold step_ok. rewrite Hprm.
+  intros Hnn Hs Hpa Hc Hprm [f Hf] r. unfold step_ok. rewrite Hprm.
   destruct (has_sinfo (s_sinfos s) (q_op q) (q_avs q) (q_id q)) eqn:Ed.
   - destruct (slash_dup s e q Ed) as [H1 H2]. rewrite H1, st_eqb_refl. simpl. subst r.
     destruct (snd (slash s e q)); reflexivity.
   - subst r. destruct (snd (slash s e q)) eqn:Er.
-    + destruct (slash_executed s e q Hnn Hs Er) as [f' [Hf' [Hd He]]]. rewrite Hf', Hd, He.
+    + destruct (slash_executed s e q Hnn Hs Hpa Er) as [f' [Hf' [Hd He]]]. rewrite Hf', Hd, He.
       destruct c; try contradiction; rewrite orb_true_r; reflexivity.
     + rewrite slash_not_ok by (rewrite Er; discriminate). rewrite st_eqb_refl, Hf. destruct c; try contradiction; reflexivity.
     + exfalso. exact (slash_never_panics s e q Er).
@@ -590,19 +599,19 @@ Proof.
 Qed.
 
 Lemma step_meets_statement s e c :
-  st_nonneg s = true -> env_sane e = true ->
+  st_nonneg s = true -> env_sane e = true -> pending_agrees s = true ->
   step_ok s e c (fst (step s e c)) (snd (step s e c)) = true.
 Proof.
-  intros Hnn Hs. destruct c as [q|op ev pw f inf|fd ev pw f inf].
+  intros Hnn Hs Hpa. destruct c as [q|op ev pw f inf|fd ev pw f inf].
   - simpl in *. apply step_ok_slash_direct; assumption.
   - simpl in *. destruct (v_dog_avs e) as [avs|] eqn:Ea.
-    + pose proof (step_ok_reason s e (COpReason op ev pw f inf) (reason_prm avs op ev pw f inf) Hnn Hs I) as H.
+    + pose proof (step_ok_reason s e (COpReason op ev pw f inf) (reason_prm avs op ev pw f inf) Hnn Hs Hpa I) as H.
       simpl in H. rewrite Ea in H. specialize (H eq_refl (ex_intro _ f eq_refl)).
       destruct (slash s e (reason_prm avs op ev pw f inf)) as [s' r]. exact H.
     + unfold step_ok. simpl. rewrite Ea, st_eqb_refl. reflexivity.
   - destruct fd as [op|].
     + simpl in *. destruct (v_dog_avs e) as [avs|] eqn:Ea.
-      * pose proof (step_ok_reason s e (CDogReason (Some op) ev pw f inf) (reason_prm avs op ev pw f inf) Hnn Hs I) as H.
+      * pose proof (step_ok_reason s e (CDogReason (Some op) ev pw f inf) (reason_prm avs op ev pw f inf) Hnn Hs Hpa I) as H.
         simpl in H. rewrite Ea in H. specialize (H eq_refl (ex_intro _ f eq_refl)).
         destruct (slash s e (reason_prm avs op ev pw f inf)) as [s' r]. exact H.
       * unfold step_ok. simpl. rewrite Ea, st_eqb_refl. reflexivity.
@@ -790,4 +799,78 @@ Proof.
   destruct (Z.eqb_spec (u_actual r) 0) as [E|E]; simpl.
   - split; [reflexivity|]. split; [|reflexivity]. apply rec_eqb_fields; reflexivity.
   - destruct (slash_amt p (u_amount r) >=? u_actual r); simpl; (split; [reflexivity|]); (split; [apply rec_eqb_refl|reflexivity]).
+Qed.
+
+(* ------------------------------------------------------------------ the pool figure keeps agreeing with the live records ---- *)
+
+Lemma live_pending_rec_step p op event rs o a :
+  live_pending (map (rec_step p op event) rs) o a = live_pending rs o a.
+Proof.
+  unfold live_pending. f_equal. rewrite map_map. apply map_ext. intros r. unfold rec_step.
+  destruct ((u_op r =? op) && negb (u_height r <? event)); [|reflexivity].
+  unfold slash_from_undel. destruct (u_actual r =? 0); [reflexivity|].
+  destruct (slash_amt p (u_amount r) >=? u_actual r); reflexivity.
+Qed.
+
+Lemma pending_agrees_step_lists p op sl event ps rs :
+  forallb (fun x => p_pending x =? live_pending rs (p_op x) (p_asset x)) ps = true ->
+  forallb (fun x => p_pending x =? live_pending (map (rec_step p op event) rs) (p_op x) (p_asset x)) (map (pool_step p op sl) ps) = true.
+Proof.
+  intros H. rewrite forallb_forall in H. apply forallb_forall. intros y Hy.
+  apply in_map_iff in Hy. destruct Hy as [x [Hx Hin]]. specialize (H x Hin). subst y.
+  rewrite live_pending_rec_step. unfold pool_step. destruct (p_op x =? op); [|assumption].
+  unfold slash_pool. destruct (pool_cleared p op sl x); exact H.
+Qed.
+
+Lemma pending_agrees_pools_only p op sl ps rs :
+  forallb (fun x => p_pending x =? live_pending rs (p_op x) (p_asset x)) ps = true ->
+  forallb (fun x => p_pending x =? live_pending rs (p_op x) (p_asset x)) (map (pool_step p op sl) ps) = true.
+Proof.
+  intros H. rewrite forallb_forall in H. apply forallb_forall. intros y Hy.
+  apply in_map_iff in Hy. destruct Hy as [x [Hx Hin]]. specialize (H x Hin). subst y.
+  unfold pool_step. destruct (p_op x =? op); [|assumption].
+  unfold slash_pool. destruct (pool_cleared p op sl x); exact H.
+Qed.
+
+Lemma slash_assets_pending s e q f : pending_agrees s = true ->
+  match slash_assets s e q f with Ok (s1, _) => pending_agrees s1 = true | _ => True end.
+Proof.
+  intros Hpa. unfold slash_assets.
+  destruct (op_value (v_assets e) (q_op q) (s_pools s)) as [total| |]; try exact I.
+  destruct (negb (0 <? total)); [exact I|].
+  generalize (Z.min (dec_of_int 1) (dec_quo (dec_mul (dec_of_int (q_power q)) f) total)). intros p.
+  pose proof (walk_pools_fst p (q_op q) (s_slists s) (s_pools s)) as Wp1.
+  destruct (walk_pools p (q_op q) (s_slists s) (s_pools s)) as [pools' exp]. simpl in Wp1.
+  destruct (q_event q <=? v_height e).
+  - pose proof (walk_recs_fst p (q_op q) (q_event q) (s_recs s)) as W1.
+    destruct (walk_recs p (q_op q) (q_event q) (s_recs s)) as [recs' exu]. simpl in W1.
+    unfold pending_agrees in *. cbn [s_pools s_recs]. subst. apply pending_agrees_step_lists. assumption.
+  - unfold pending_agrees in *. cbn [s_pools s_recs]. subst. apply pending_agrees_pools_only. assumption.
+Qed.
+
+Lemma slash_pending s e q : pending_agrees s = true -> pending_agrees (fst (slash s e q)) = true.
+Proof.
+  intros Hpa. unfold slash.
+  destruct (negb (check_param (v_height e) q)); [assumption|].
+  destruct (q_factor q) as [f|]; [|assumption].
+  pose proof (slash_assets_pending s e q f Hpa) as K.
+  destruct (slash_assets s e q f) as [[s1 ex]| |]; simpl; try assumption.
+  unfold store_sinfo.
+  destruct (has_sinfo _ _ _ _); [assumption|].
+  destruct (avs_contract e (q_avs q)); [|assumption].
+  destruct (negb (z =? q_contract q)); [assumption|].
+  destruct (q_event q >? v_height e); [assumption|].
+  destruct ((f <? 0) || (f >? dec_of_int 1)); [assumption|]. simpl. exact K.
+Qed.
+
+Lemma step_pending s e c : pending_agrees s = true -> pending_agrees (fst (step s e c)) = true.
+Proof.
+  intros Hpa. destruct c as [q|op ev pw f inf|fd ev pw f inf]; simpl.
+  - apply slash_pending; assumption.
+  - destruct (v_dog_avs e) as [avs|]; [|assumption].
+    pose proof (slash_pending s e (reason_prm avs op ev pw f inf) Hpa) as K.
+    destruct (slash s e (reason_prm avs op ev pw f inf)). exact K.
+  - destruct fd as [op|]; [|assumption]. destruct (v_dog_avs e) as [avs|]; [|assumption].
+    pose proof (slash_pending s e (reason_prm avs op ev pw f inf) Hpa) as K.
+    destruct (slash s e (reason_prm avs op ev pw f inf)). exact K.
 Qed.
